@@ -18,6 +18,8 @@ generated, splits on the observations the relation depends on (is an operand a p
 of the underlying Python relation) and computes.  A condition that means the same - however it is
 written - is accepted; one that means something else leaves a goal that cannot be closed.
 -/
+set_option linter.unusedSimpArgs false
+
 namespace Pedal.Assertions
 open Pedal.Gen.Assertions
 
